@@ -6,12 +6,14 @@ persistence, prefix bytes, rejected calls) and C08 (README currency).
 A history stops at its first failure (later steps would only re-report the
 inherited state), so the witness is the shortest failing prefix.
 """
+import os
 import random
 from pathlib import Path
 
 import numpy as np
 
 from . import decoder, gens
+from .common import spelled_path
 from .monitors import (bits_equal, check_array_disk, check_array_readme,
                        compare_handle, describe, same_dtype)
 
@@ -31,7 +33,7 @@ class Either:
         self.accepted = accepted
 
 # compact alphabet for the bounded-exhaustive part
-ALPHABET = ['app1', 'app2x', 'applist', 'appscalar', 'app0', 'iter2', 'iter0',
+ALPHABET = ['app1', 'app2x', 'applist', 'appscalar', 'app0', 'iter2', 'iter0', 'iter0first',
             'itergen', 'set', 'ctx:app1+app1', 'trunc0', 'trunc1', 'truncm1', 'truncbelow', 'trunclen',
             'truncstr', 'badshape', 'badrank', 'modecycle', 'reopen']
 # additional ops for long random histories
@@ -128,6 +130,9 @@ def build(op, ref, rng, meta):
         x, y = rows(1), gens.safe_source(rng, 'int64', dtype, (2,) + trail).tolist()
         exp = concat(concat(ref, x), np.asarray(y, dtype=dtype))
         return exp, lambda D, a, p: (a.iterappend([x, y]), a)[1]
+    if op == 'iter0first':      # the first chunk has no rows, the data comes after it
+        e, y = np.zeros((0,) + trail, dtype=dtype), rows(2)
+        return concat(ref, y), lambda D, a, p: (a.iterappend(c for c in (e, y)), a)[1]
     if op == 'iter0':
         return ref, lambda D, a, p: (a.iterappend([]), a)[1]
     if op in ('itergen', 'itergen3'):
@@ -260,12 +265,21 @@ def run(env, res, case, monitors):
     D = env.darr
     st = case['start']
     d = env.scratch.new('h')
-    path = d / 'arr'
+    apipath, path = spelled_path(d, 'arr', case['vseed'])
+    if apipath != path:
+        res.count('paths.symlink_dotdot')
     try:
         rng0 = random.Random(f"{case['vseed']}:start")
         dtype = gens.dt(st['numtype'], st['bo'])
         ref = gens.random_values(rng0, dtype, tuple(st['shape']))
-        a = D.asarray(path, ref.copy(), accessmode='r+', chunklen=st.get('chunklen', 2))
+        try:
+            a = D.asarray(apipath, ref.copy(), accessmode='r+', chunklen=st.get('chunklen', 2))
+        except Exception as e:
+            res.fail(f'start:creation-raised:{type(e).__name__}',
+                     f'asarray({"<symlink>/../arr" if apipath != path else "arr"}, {describe(ref)}) raised '
+                     f'{type(e).__name__}: {str(e)[:200]}', pathform='symlink/..' if apipath != path else 'plain')
+            res.nontrivial = True
+            return
         datafile = path / 'arrayvalues.bin'
         nvalid = 0
         for i, op in enumerate([None] + list(case['ops'])):
@@ -291,9 +305,10 @@ def run(env, res, case, monitors):
                                          step=i, op=op)
                     do.probe = probe
                 try:
-                    a = do(D, a, path)
+                    a = do(D, a, apipath)
                     if getattr(do, 'newpath', False):
-                        path = a.path
+                        apipath = a.path
+                        path = Path(os.path.realpath(a.path))
                         datafile = path / 'arrayvalues.bin'
                         old_bytes = b''
                 except Exception as e:   # includes StopIteration etc.
